@@ -3,13 +3,18 @@ import Vgi.Drive.StreamParse
 /-!
 Line-protocol driver for C37 (dispatch hooks over call histories, pipe and HTTP).
 
-  hist <producerBatchLimit>                                   first line of a case
+  hist <producerBatchLimit> <plain|wirecap|extcap|sticky|pver>  first line of a case (server configuration)
   P <mode> U <declSchema> <void> <lvl> <rid> <unary script>   pipe unary call        (grammar: Drive/C04)
   P <mode> S <method facts> <lvl> <rid> <stream script> IN …  pipe stream call       (grammar: Drive/C06)
   P <mode> X | P <mode> B                                     unknown method | parameters that do not deserialize
   H <mode> U … | H <mode> X | H <mode> B                      the same over HTTP
   H <mode> I <label> <enc:0|1> <method facts> <lvl> <stream script>     POST /<m>/init
   H <mode> E <label> <srcFields> (d <val> <lib> | c)                    POST /<m>/exchange with the label's latest token
+  P <mode> SU | H <mode> SU                                   unary whose result cannot be serialized
+  P <mode> VU                                                 protocol-version mismatch on a pipe (refused before the hook)
+  H <mode> VU | VI | KU | KI | BI                             refused after the hook started: version mismatch (unary/init),
+                                                              lost sticky session (unary/init), undeserializable init parameters
+  H <mode> KE <label>                                         lost sticky session on /exchange with the label's token
   mode ::= normal | nilctx | pstart | pend        (what the installed hook does on this call)
 
 Answer: `ev=<hook events> err=<0|1>` (+ ` token=<0|1>` for I/E lines), `no-token` for an E line
@@ -23,14 +28,21 @@ structure Label where
   m : SMethod
   script : StreamScript
   isProducer : Bool
+  declared : Option Schema    -- input schema the init declared (`StreamResult.InputSchema`)
   held : Option Nat           -- cursor inside the token the client holds
 
 structure St where
   nextTok : Nat
   limit : Nat
+  cfg : HttpCfg
   labels : List Label
 
-def init : St := { nextTok := 1, limit := 2, labels := [] }
+def init : St := { nextTok := 1, limit := 2, cfg := .plain, labels := [] }
+
+def pCfg : String → Option HttpCfg
+  | "plain" => some .plain | "sticky" => some .plain | "pver" => some .plain
+  | "wirecap" => some .wireCap | "extcap" => some .extCap
+  | _ => none
 
 def pMode : String → Option HookMode
   | "normal" => some .normal | "nilctx" => some .nilCtx | "pstart" => some .panicStart | "pend" => some .panicEnd
@@ -57,9 +69,9 @@ def setLabel (ls : List Label) (l : Label) : List Label := l :: ls.filter (·.na
 
 def step (st : St) (ws : List String) : St × String :=
   match ws with
-  | ["hist", n] => match n.toNat? with
-    | some k => if k = 0 then (st, "bad-op") else ({ nextTok := 1, limit := k, labels := [] }, "ok")
-    | none => (st, "bad-op")
+  | ["hist", n, cfg] => match n.toNat?, pCfg cfg with
+    | some k, some cfg => if k = 0 then (st, "bad-op") else ({ nextTok := 1, limit := k, cfg := cfg, labels := [] }, "ok")
+    | _, _ => (st, "bad-op")
   | tr :: mode :: kind :: rest =>
     match pMode mode with
     | none => (st, "bad-op")
@@ -67,13 +79,26 @@ def step (st : St) (ws : List String) : St × String :=
       match tr, kind, rest with
       | _, "X", [] => if tr = "P" || tr = "H" then finishCall st mode unknownMethodOutcome "" else (st, "bad-op")
       | _, "B", [] => if tr = "P" || tr = "H" then finishCall st mode badParamsOutcome "" else (st, "bad-op")
+      | _, "SU", [] => if tr = "P" || tr = "H" then finishCall st mode serializationErrorOutcome "" else (st, "bad-op")
+      | "P", "VU", [] => finishCall st mode pipeVersionRefusedOutcome ""
+      | "H", "VU", [] => finishCall st mode refusedAfterStartOutcome ""
+      | "H", "VI", [] => finishCall st mode refusedAfterStartOutcome ""
+      | "H", "KU", [] => finishCall st mode refusedAfterStartOutcome ""
+      | "H", "KI", [] => finishCall st mode refusedAfterStartOutcome ""
+      | "H", "BI", [] => finishCall st mode refusedAfterStartOutcome ""
+      | "H", "KE", [label] =>
+        match findLabel st.labels label with
+        | some l => match l.held with
+          | some _ => finishCall st mode refusedAfterStartOutcome " token=0"
+          | none => (st, "no-token")
+        | none => (st, "no-token")
       | "P", "U", rest =>
         match parseUnaryCall ("call" :: "pipe" :: rest) with
         | some (_, m, lvl, rid, s) => finishCall st mode (pipeUnaryOutcome m lvl rid s) ""
         | none => (st, "bad-op")
       | "H", "U", rest =>
         match parseUnaryCall ("call" :: "http" :: rest) with
-        | some (_, m, lvl, rid, s) => finishCall st mode (httpUnaryOutcome m lvl rid s) ""
+        | some (_, m, lvl, rid, s) => finishCall st mode (httpUnaryOutcome st.cfg m lvl rid s) ""
         | none => (st, "bad-op")
       | "P", "S", rest =>
         match pCall rest with
@@ -86,12 +111,15 @@ def step (st : St) (ws : List String) : St × String :=
           | some (_, rest) =>
             match pScript rest with
             | some (s, []) =>
-              let r := httpInit m st.limit s enc
+              let r := httpInit st.cfg m st.limit s enc
               let isP := match s.init with
                 | .ok k _ _ _ => (decideMode m.typ k).getD false
                 | _ => false
+              let decl := match s.init with
+                | .ok _ _ _ ri => ri
+                | _ => none
               let (st', out) := finishCall st mode r.outcome s!" token={b01 r.token.isSome}"
-              let lab : Label := { name := label, m := m, script := s, isProducer := isP, held := r.token }
+              let lab : Label := { name := label, m := m, script := s, isProducer := isP, declared := decl, held := r.token }
               ({ st' with labels := setLabel st'.labels lab }, out)
             | _ => (st, "bad-op")
           | none => (st, "bad-op")
@@ -109,7 +137,7 @@ def step (st : St) (ws : List String) : St × String :=
             match inp? with
             | none => (st, "bad-op")
             | some inp =>
-              let r := httpExchange l.m st.limit l.script l.isProducer k src inp
+              let r := httpExchange st.cfg l.m st.limit l.script l.isProducer l.declared k src inp
               let (st', out) := finishCall st mode r.outcome s!" token={b01 r.token.isSome}"
               -- the client keeps its old token unless the response carries a new one
               let held := match r.token with | some c => some c | none => l.held
